@@ -4,18 +4,31 @@ import FinVerif.Driver.Util
 import FinVerif.Gen.KernF
 import FinVerif.Model.C20
 import FinVerif.Model.C20Phi2
-open FinVerif FinVerif.Driver FinVerif.Gen.KernF FinVerif.Model.C20
+import FinVerif.Model.C20Sobol
+open FinVerif FinVerif.Driver FinVerif.Gen.KernF FinVerif.Model.C20 FinVerif.Model.C20Sobol
 
-/-- Test-function families shared (same operation order) with harness/props/c20.py. -/
+/-- Test-function families shared (same operation order) with harness/props/c20.py.
+0 cubic, 1 exponential + linear; locally flat objectives: 2 option payoff minus premium `max(s(x−K),0) − prem`,
+3 clipped `min(max(x,lo),hi) − target`, 4 step `x < a ? l : r` (comparisons and one subtraction only: exact). -/
 def famF (fam : Int) (c : Array Float) (x : Float) : Float :=
   let c0 := c.getD 0 0; let c1 := c.getD 1 0; let c2 := c.getD 2 0; let c3 := c.getD 3 0
   if fam == 0 then ((c3 * x + c2) * x + c1) * x + c0
-  else c0 + c1 * Float.exp (c2 * x) + c3 * x
+  else if fam == 1 then c0 + c1 * Float.exp (c2 * x) + c3 * x
+  else if fam == 2 then
+    let y := c2 * (x - c0)
+    (if y > 0.0 then y else 0.0) - c1
+  else if fam == 3 then
+    let y := if x < c0 then c0 else if x > c1 then c1 else x
+    y - c2
+  else if x < c0 then c1 else c2
 
 def famD (fam : Int) (c : Array Float) (x : Float) : Float :=
-  let c1 := c.getD 1 0; let c2 := c.getD 2 0; let c3 := c.getD 3 0
+  let c0 := c.getD 0 0; let c1 := c.getD 1 0; let c2 := c.getD 2 0; let c3 := c.getD 3 0
   if fam == 0 then (3.0 * c3 * x + 2.0 * c2) * x + c1
-  else c1 * c2 * Float.exp (c2 * x) + c3
+  else if fam == 1 then c1 * c2 * Float.exp (c2 * x) + c3
+  else if fam == 2 then (if c2 * (x - c0) > 0.0 then c2 else 0.0)
+  else if fam == 3 then (if x < c0 then 0.0 else if x > c1 then 0.0 else 1.0)
+  else 0.0
 
 def showOpt : Option Float → String
   | some x => showFloat x
@@ -110,6 +123,18 @@ def step (t : List String) : String :=
       if fs.length != n * n then "bad-op" else
       showFloats ((cholesky Float.sqrt (chunks n n fs)).foldl (· ++ ·) [])
     | _, _ => "bad-op"
+  | ["sobolll", n] =>
+    match n.toNat? with
+    | some n => toString (sobolLL n)
+    | none => "bad-op"
+  | ["sobol1", ll, n] =>
+    match ll.toNat?, n.toNat? with
+    | some ll, some n => showExcept (fun xs => " ".intercalate (xs.map toString)) (sobolDim1 ll n)
+    | _, _ => "bad-op"
+  | ["sobolc", i] =>
+    match i.toNat? with
+    | some i => toString (firstZeroIdx i)
+    | none => "bad-op"
   | _ => "bad-op"
 
 def main : IO Unit := loop step
